@@ -209,6 +209,16 @@ def run(ck, F):
                  'later through the same stream (positions, file / line / column of locations) come out in that base / format', loc=f['loc'], fn=f['id'])
 
     # ---------------------------------------------------------------- values compared whole
+    R2d = ck.rule('C17.sink-not-observed', 'no function of the printer asks the stream where it stands or how it fares (tellp, rdstate, good, eof, '
+                  'fail, bad, width(), precision(), getloc, rdbuf()->in_avail ...): what is written for a graph does not depend on what the sink '
+                  'already holds or can report -- the same unit printed again, to a fresh or to a used stream, gives the same text', floor=150)
+    OBSERVERS = ('tellp', 'tellg', 'rdstate', 'good', 'eof', 'fail', 'bad', 'operator bool', 'operator!', 'getloc', 'in_avail', 'pubseekoff', 'seekp')
+    for f in sorted(pf.values(), key=lambda f: f['id']):
+        seen_obs = sorted({(n.get('callee') or {}).get('name') for n in walk(f.get('body'))
+                           if n.get('k') == 'call' and (n.get('callee') or {}).get('name') in OBSERVERS
+                           and ((n['callee'].get('parent') or '').startswith(('std::basic_ostream', 'std::basic_ios', 'std::ios_base', 'std::basic_streambuf', 'std::basic_istream')))})
+        ck.check(R2d, f['id'], not seen_obs, f'{f["id"]} reads {seen_obs} of the stream: the text then depends on the state of the sink, not only on the graph '
+                 'and the options', loc=f['loc'], fn=f['id'])
     R2c = ck.rule('C17.whole-value-compared', 'a comparison in the printer that decides what is printed compares whole objects: an operator== / != '
                   'inherited from a base class is not applied to objects of a derived class that adds data members (the comparison would '
                   'silently ignore them: a location known by its file only would count as no location)', floor=150)
